@@ -2,6 +2,7 @@ from ..expr_container import Term
 from ..indices import Index, Indices, sort_idx_canonical
 
 from collections import Counter
+from collections.abc import Collection
 from dataclasses import dataclass, fields
 import itertools
 
@@ -18,6 +19,14 @@ class Contraction:
         The names of the contracted tensors
     term_target_indices: tuple[Index]
         The target indices of the term the contraction belongs to
+    external_indices: Collection[Index] | None, optional
+        The indices of all objects of the term that are not part of the
+        contraction. If provided, an index that occurs only once in the
+        contraction is only kept as target index of the contraction if it is
+        a target index of the term or if it occurs on one of the other
+        objects. Otherwise it is contracted (sum over a single tensor axis).
+        If not provided, all indices that occur only once are assumed to be
+        target indices of the contraction.
     """
     # use counter that essentially counts how many class instances have
     # been created
@@ -28,7 +37,8 @@ class Contraction:
 
     def __init__(self, indices: tuple[tuple[Index]],
                  names: tuple[str],
-                 term_target_indices: tuple[Index]) -> None:
+                 term_target_indices: tuple[Index],
+                 external_indices: Collection[Index] | None = None) -> None:
         self.indices: tuple[tuple[Index]] = indices
         self.names: tuple[str] = names
         self.contracted: tuple[Index] = None
@@ -36,7 +46,8 @@ class Contraction:
         self.scaling: Scaling = None
         self.id: int = next(self._instance_counter)
         self.contraction_name = f"{self._base_name}_{self.id}"
-        self._determine_contracted_and_target(term_target_indices)
+        self._determine_contracted_and_target(term_target_indices,
+                                              external_indices)
         self._determine_scaling()
 
     def __str__(self):
@@ -48,9 +59,9 @@ class Contraction:
     def __repr__(self):
         return self.__str__()
 
-    def _determine_contracted_and_target(self,
-                                         term_target_indices: tuple[Index]
-                                         ) -> None:
+    def _determine_contracted_and_target(
+            self, term_target_indices: tuple[Index],
+            external_indices: Collection[Index] | None = None) -> None:
         """
         Determines and sets the contracted and target indices on the
         contraction using the provided target indices of the term
@@ -59,7 +70,7 @@ class Contraction:
         term, the target indices of the term will be used instead.
         """
         contracted, target = self._split_contracted_and_target(
-            self.indices, term_target_indices
+            self.indices, term_target_indices, external_indices
         )
         # sort the indices canonical
         contracted = sorted(contracted, key=sort_idx_canonical)
@@ -73,19 +84,25 @@ class Contraction:
         self.target = tuple(target)
 
     @staticmethod
-    def _split_contracted_and_target(indices: tuple[tuple[Index]],
-                                     term_target_indices: tuple[Index]
-                                     ) -> tuple[list[Index], list[Index]]:
+    def _split_contracted_and_target(
+            indices: tuple[tuple[Index]], term_target_indices: tuple[Index],
+            external_indices: Collection[Index] | None = None
+            ) -> tuple[list[Index], list[Index]]:
         """
         Splits the given indices in contracted and target indices using
         the provided target indices of the term the contraction is a
-        part of.
+        part of. If the indices of the other objects of the term are provided
+        as external indices, an index that occurs only once and is neither a
+        target index of the term nor an external index is contracted.
         """
         idx_counter = Counter(itertools.chain.from_iterable(indices))
         contracted = []
         target = []
         for idx, count in idx_counter.items():
-            if count == 1 or idx in term_target_indices:
+            if idx in term_target_indices:
+                target.append(idx)
+            elif count == 1 and (external_indices is None or
+                                 idx in external_indices):
                 target.append(idx)
             else:
                 contracted.append(idx)
